@@ -187,3 +187,77 @@ package kvql
 //@   assigns p.current, p.skips, fcur(p.ChildPlan), nops, failed, lastErr
 //@   ensures[C08] inv: err == nil ==> flimInv(p) && p.current == 0 && p.skips == 0
 //@   ensures[C13] surfaced: failed ==> err == lastErr
+//
+// ---------------------------------------------------------------------------------------------
+// Building a plan (optimizer.go; C13: planning never issues a mutating storage operation, an error
+// of a storage operation issued while planning - the cursor creations and seeks of Init - is
+// returned as it is; C08 / C09: LIMIT and GROUP BY reach the plan they belong to).
+//
+//@ func (o *Optimizer) init() (err error)
+//@   trusted thin contract (parsing, checking and expression rewriting have no access to a store: frame only), body not verified here
+//@   requires o != nil
+//@   assigns o.stmt, o.filter, allof(BinaryOpExpr.Left), allof(BinaryOpExpr.Right), allof(FunctionCallExpr.Args), allof(FunctionCallExpr.Result), allelems(Expression)
+//@   ensures err == nil ==> o.stmt != nil && ((is(o.stmt, *SelectStmt) || is(o.stmt, *DeleteStmt)) ==> wfFilter(o.filter) && wfx(o.filter.Ast.Expr))
+//@   ensures err == nil && is(o.stmt, *SelectStmt) && as(o.stmt, *SelectStmt).Order != nil ==> (forall i Int :: 0 <= i && i < len(as(o.stmt, *SelectStmt).Order.Orders) ==> as(o.stmt, *SelectStmt).Order.Orders[i].Field != nil)
+//@   ensures err == nil && is(o.stmt, *DeleteStmt) && as(o.stmt, *DeleteStmt).Limit != nil ==> as(o.stmt, *DeleteStmt).Limit.Start >= 0 && as(o.stmt, *DeleteStmt).Limit.Count >= 0
+//
+//@ func (o *Optimizer) findAggrFunc(expr Expression) (found bool)
+//@   trusted thin contract (a read-only walk over the expression tree), body not verified here
+//@   assigns nothing
+//
+//@ func (o *Optimizer) buildFinalLimitPlan(s Storage, ffp FinalPlan, stmt *SelectStmt) (plan FinalPlan)
+//@   props C08 C13
+//@   requires stmt != nil && stmt.Limit != nil && ffp != nil
+//@   assigns nothing
+//@   ensures[C08] wired: is(plan, *FinalLimitPlan) && fresh(plan) && as(plan, *FinalLimitPlan).Start == stmt.Limit.Start && as(plan, *FinalLimitPlan).Count == stmt.Limit.Count && as(plan, *FinalLimitPlan).ChildPlan == ffp
+//
+//@ func (o *Optimizer) buildFinalPlan(s Storage, fp Plan, stmt *SelectStmt) (plan FinalPlan, err error)
+//@   props C08 C09 C13
+//@   requires o != nil && stmt != nil && fp != nil && (stmt.Order != nil ==> (forall i Int :: 0 <= i && i < len(stmt.Order.Orders) ==> stmt.Order.Orders[i].Field != nil))
+//@   assigns nothing
+//@   ensures shape: err == nil ==> plan != nil && fresh(plan)
+//@   ensures[C08] limit: err == nil && stmt.Limit != nil && !(local(hasAggr) && stmt.Order == nil) ==> is(plan, *FinalLimitPlan) && as(plan, *FinalLimitPlan).Start == stmt.Limit.Start && as(plan, *FinalLimitPlan).Count == stmt.Limit.Count
+//@   ensures[C08] agglimit: err == nil && stmt.Limit != nil && local(hasAggr) && stmt.Order == nil ==> is(plan, *AggregatePlan) && as(plan, *AggregatePlan).Start == stmt.Limit.Start && as(plan, *AggregatePlan).Limit == stmt.Limit.Count
+//@   ensures[C08] nolimit: err == nil && stmt.Limit == nil ==> !is(plan, *FinalLimitPlan) && (is(plan, *AggregatePlan) ==> as(plan, *AggregatePlan).Limit == -1 && as(plan, *AggregatePlan).Start == 0)
+//@   ensures[C09] groups: err == nil && local(hasAggr) && stmt.Order == nil && stmt.Limit == nil ==> is(plan, *AggregatePlan) && as(plan, *AggregatePlan).ChildPlan == fp && as(plan, *AggregatePlan).AggrAll == (stmt.GroupBy == nil) && (stmt.GroupBy != nil ==> as(plan, *AggregatePlan).GroupByFields == stmt.GroupBy.Fields)
+//@   loop 0 (field)
+//@     invariant aggrFields >= 0
+//@   loop 1 (gf)
+//@     invariant aggrFields >= 0
+//@   loop 2 (fn)
+//@     invariant aggrFields >= 0
+//
+//@ func (o *Optimizer) buildPutPlan(s Storage, stmt *PutStmt) (plan FinalPlan, err error)
+//@   props C13 C12
+//@   requires stmt != nil
+//@   assigns nothing
+//@   ensures[C12] wired: err == nil && is(plan, *PutPlan) && fresh(plan) && as(plan, *PutPlan).Storage == s && as(plan, *PutPlan).KVPairs == stmt.KVPairs && !as(plan, *PutPlan).executed
+//@   ensures[C13] quiet: nops == old(nops)
+//
+//@ func (o *Optimizer) buildRemovePlan(s Storage, stmt *RemoveStmt) (plan FinalPlan, err error)
+//@   props C13 C12
+//@   requires stmt != nil
+//@   assigns nothing
+//@   ensures[C12] wired: err == nil && is(plan, *RemovePlan) && fresh(plan) && as(plan, *RemovePlan).Storage == s && as(plan, *RemovePlan).Keys == stmt.Keys && !as(plan, *RemovePlan).executed
+//@   ensures[C13] quiet: nops == old(nops)
+//
+//@ func (o *Optimizer) buildSelectPlan(s Storage, stmt *SelectStmt) (plan FinalPlan, err error)
+//@   props C13
+//@   requires o != nil && wfFilter(o.filter) && stmt != nil && s != nil && !failed && (stmt.Order != nil ==> (forall i Int :: 0 <= i && i < len(stmt.Order.Orders) ==> stmt.Order.Orders[i].Field != nil))
+//@   assigns allof(fcur), nops, failed, lastErr
+//@   ensures[C13] readonly: nmut == old(nmut)
+//@   ensures[C13] surfaced: (failed ==> err == lastErr) && (err == nil ==> !failed && plan != nil)
+//
+//@ func (o *Optimizer) buildPlan(s Storage) (plan FinalPlan, err error)
+//@   props C13
+//@   requires o != nil && s != nil && !failed
+//@   assigns o.stmt, o.filter, allof(BinaryOpExpr.Left), allof(BinaryOpExpr.Right), allof(FunctionCallExpr.Args), allof(FunctionCallExpr.Result), allelems(Expression), walkFlag, allof(fcur), allof(pcur), nops, failed, lastErr
+//@   ensures[C13] readonly: nmut == old(nmut)
+//@   ensures[C13] surfaced: (failed ==> err == lastErr) && (err == nil ==> !failed && plan != nil)
+//
+//@ func (o *Optimizer) BuildPlan(s Storage) (plan FinalPlan, err error)
+//@   props C13
+//@   requires o != nil && s != nil && !failed
+//@   assigns o.stmt, o.filter, allof(BinaryOpExpr.Left), allof(BinaryOpExpr.Right), allof(FunctionCallExpr.Args), allof(FunctionCallExpr.Result), allelems(Expression), walkFlag, allof(fcur), allof(pcur), nops, failed, lastErr
+//@   ensures[C13] readonly: nmut == old(nmut)
+//@   ensures[C13] surfaced: (failed ==> err == lastErr) && (err == nil ==> !failed)
